@@ -206,9 +206,11 @@ def G.dependencies (g : G) (x : Nat) : Except Err (List Nat) := do
   let s ← g.edgesAt i
   s.mapM (nodeAt g)
 
-/-- the work-list loop of `dependencies(node, recurse=True)`; `fuel` bounds the number of pops -/
+/-- the work-list loop of `dependencies(node, recurse=True)`; `fuel` bounds the number of pops (the code has no such
+bound: running out of it is reported as `recursion`, which the correspondence would show as a disagreement) -/
 def depsLoop (g : G) : Nat → List Nat → List Nat → List Nat → Except Err (List Nat)
-  | 0, _, _, deps => .ok deps
+  | 0, [], _, deps => .ok deps
+  | 0, _ :: _, _, _ => .error .recursion
   | fuel + 1, queue, seen, deps =>
     match queue.reverse with
     | [] => .ok deps
